@@ -10,6 +10,7 @@ sufs="$@"; [ -z "$sufs" ] && sufs="m1 m2 m3 m4 m5 m6 m7 m8"
 for suf in $sufs; do
 for d in $HERE/seeded/C*-$suf; do
   id=$(basename $d); prop=${id%%-*}
+  if [ -n "$VERIF_ONLY" ] && ! echo ",$VERIF_ONLY," | grep -q ",$prop,"; then continue; fi
   ( cd $VERIF_REPO && git apply $d/patch.diff ) || { echo "$id APPLY-FAILED"; continue; }
   res=$(cd $HERE && ./check $prop quick 2>&1 | tail -1)
   echo "$id $res"
